@@ -133,6 +133,10 @@ class C01(Check):
 
     extra_bins = ("c01send", "c01cfg", "c01pkt")
 
+    def accept_case(self, c):
+        import fake_net
+        return fake_net.can_drive(c["default_tmo"], c["max_tmo"], c["retries"], c["max_bs"], c["wrap"])
+
     def extra_checks(self, tier, rng, report):
         # send failures towards the client: the retry loops against Tftp/SendFaults.v (C01: delivery within the
         # budget; C02: at most 1 + max_retries sends of one packet; C07/C09 subclass this class and skip it)
